@@ -103,6 +103,9 @@ def generate(tier, seed):
         for j, cfg in enumerate(({}, {"random_values": True}, {"random_values": True})):
             cases.append({"cid": f"mix-free-{i}-{j}", "family": "mixture-free", "kind": "solve", "spec": spec,
                           "plan": {"solver": cfg, "py_seed": seed + i}})
+    if tier != "quick":
+        # L7: the repository's own tests under the universal monitors
+        cases.append({"cid": "suite-replay", "family": "suite", "kind": "suite", "jobs": 8})
     return cases
 
 
